@@ -1,2 +1,3 @@
 import Spec.Grammar
 import Spec.Config
+import Spec.Conforms
